@@ -323,7 +323,7 @@ func (fc *fctx) assigned(list []ast.Stmt) []*types.Var {
 					switch q {
 					case "builtin.copy", "binary.PutUint64", "(binary.bigEndian).PutUint64":
 						mark(c.Args[0])
-					case "(hash.Hash).Write":
+					case "(hash.Hash).Write", "(url.Values).Set":
 						mark(c.Fun.(*ast.SelectorExpr).X)
 					}
 				}
@@ -570,6 +570,29 @@ func (fc *fctx) store(lhs ast.Expr, val string) string {
 	case *ast.SelectorExpr:
 		id, ok := l.X.(*ast.Ident)
 		k := fc.kind(l.X)
+		if ok && (k == kUParam || k == kUParamPtr) {
+			v := t.info.ObjectOf(id).(*types.Var)
+			name := fc.varName(v)
+			base := name
+			pre := ""
+			if k == kUParamPtr {
+				base = fc.bind("deref " + name)
+			}
+			var parts []string
+			for _, f := range fieldProj["URLParam"] {
+				pf := strings.Split(f, ":")
+				if pf[0] == l.Sel.Name {
+					parts = append(parts, val)
+				} else {
+					parts = append(parts, "("+pf[1]+" "+base+")")
+				}
+			}
+			rec := "mkUrlParam " + strings.Join(parts, " ")
+			if k == kUParamPtr {
+				rec = "Some (" + rec + ")"
+			}
+			return pre + fc.flush() + "let " + name + " := " + rec + " in\n  "
+		}
 		if ok && k == kInput {
 			v := t.info.ObjectOf(id).(*types.Var)
 			name := fc.varName(v)
@@ -741,6 +764,9 @@ func (fc *fctx) exprStmt(s *ast.ExprStmt) string {
 	case "(hash.Hash).Write":
 		recv := c.Fun.(*ast.SelectorExpr).X
 		return fc.store(recv, "(hash_write "+fc.expr(recv)+" "+fc.expr(c.Args[0])+")")
+	case "(url.Values).Set":
+		recv := c.Fun.(*ast.SelectorExpr).X
+		return fc.store(recv, "(values_set "+fc.expr(c.Args[0])+" "+fc.expr(c.Args[1])+" "+fc.expr(recv)+")")
 	}
 	t.fail(s, "call statement %s", exprText(c.Fun))
 	return ""
@@ -995,10 +1021,11 @@ func (fc *fctx) rangeStmt(s *ast.RangeStmt, rest []ast.Stmt, k konts) string {
 			Post: &ast.IncDecStmt{X: key, Tok: token.INC}, Body: s.Body}
 		return fc.forStmt(f, rest, k)
 	}
-	if fc.kind(s.X) != kStrList {
+	pairs := fc.kind(s.X) == kPairs
+	if fc.kind(s.X) != kStrList && !pairs {
 		t.fail(s, "range over %s", fc.typeOf(s.X))
 	}
-	if s.Key != nil {
+	if s.Key != nil && !pairs {
 		if id, ok := s.Key.(*ast.Ident); !ok || id.Name != "_" {
 			t.fail(s, "range with an index variable")
 		}
@@ -1015,12 +1042,25 @@ func (fc *fctx) rangeStmt(s *ast.RangeStmt, rest []ast.Stmt, k konts) string {
 	if id, ok := s.Value.(*ast.Ident); ok && id.Name != "_" {
 		elem = fc.varName(t.info.Defs[id].(*types.Var))
 	}
+	listT := "list bytes"
+	if pairs {
+		// the iteration order of a Go map is unspecified; the association list is walked in its own order
+		kn := "_"
+		if id, ok := s.Key.(*ast.Ident); ok && id.Name != "_" {
+			kn = fc.varName(t.info.Defs[id].(*types.Var))
+		}
+		elem = "(" + kn + ", " + elem + ")"
+		listT = "list (bytes * bytes)"
+	}
 	lv := fc.assigned(s.Body.List)
 	lvSet := map[*types.Var]bool{}
 	for _, v := range lv {
 		lvSet[v] = true
 	}
 	var nodes []ast.Node
+	if s.Key != nil {
+		nodes = append(nodes, s.Key)
+	}
 	if s.Value != nil {
 		nodes = append(nodes, s.Value)
 	}
@@ -1060,7 +1100,7 @@ func (fc *fctx) rangeStmt(s *ast.RangeStmt, rest []ast.Stmt, k konts) string {
 		kxT += t.coqType(s, v.Type()) + " -> "
 	}
 	kxT += "res " + fc.resT + ")"
-	def := "Fixpoint " + name + " (range_list : list bytes) (fuel0 : nat) " + strings.Join(poolBinders, " ") + " " + strings.Join(ivBinders, " ") + " "
+	def := "Fixpoint " + name + " (range_list : " + listT + ") (fuel0 : nat) " + strings.Join(poolBinders, " ") + " " + strings.Join(ivBinders, " ") + " "
 	if len(lv) > 0 {
 		def += lvBinders + " "
 	}
